@@ -682,6 +682,7 @@ func TestCheck(t *testing.T) {
 	rec.Assume("not asserted (reference verdict 'unspecified'): array dimensions written with leading zeros or >= 2^31, tuple with zero components, components supplied for a non-tuple type")
 	rec.Assume("idempotence is checked on the spelling the library itself renders, re-packed as a parameter definition (tuple + dimensions + components) because a parenthesised list is not a JSON-ABI type string")
 	k := evid.NewKind(rec, "type", judgeType)
+	kReval := evid.NewKind(rec, "revalidate", judgeReval)
 	rec.Corpus(t)
 
 	t.Run("exhaustive", func(t *testing.T) {
@@ -809,6 +810,8 @@ func TestCheck(t *testing.T) {
 		k.Check(rt, TypeCase{Param: fromRef(p)}, nonTrivial(p, oc), classes(oc, "gen:unicode")...)
 	})
 
+	rec.Rapid(t, "revalidate", rec.N(4000, 40000), revalProp(kReval))
+
 	rec.Rapid(t, "alphabet", rec.N(3000, 40000), func(rt *rapid.T) {
 		// free strings over the type alphabet, usually started by a keyword
 		s := rapid.StringOfN(rapid.SampledFrom(alphabet), 0, 24, -1).Draw(rt, "s")
@@ -827,6 +830,7 @@ func TestCheck(t *testing.T) {
 func TestReplay(t *testing.T) {
 	rec := evid.Start("C13", rule)
 	evid.NewKind(rec, "type", judgeType)
+	evid.NewKind(rec, "revalidate", judgeReval)
 	rec.Replay(t)
 }
 
